@@ -327,3 +327,48 @@ func VerifC16_NilFnTask() {
 	vAssert("nil-fn/nothing-started", entered == 0)
 	vReach("ran")
 }
+
+// Edges declared between known tasks AFTER the graph was sorted or run once are
+// seen by the next DepthFirstSort / Run: a cycle made that way is rejected.
+func VerifC16_SortThenEdges() {
+	vNativeReset()
+	first := vInt("first", 0, 1) // what happens in between: DepthFirstSort or a complete Run
+	cyc := vBool("cycle")
+	entered := 0
+	fn := func(ctx context.Context, opt *getoptions.GetOpt, args []string) error {
+		entered++
+		vYield(entered)
+		return nil
+	}
+	g := NewGraph("g")
+	a, b := NewTask("a", fn), NewTask("b", fn)
+	g.AddTask(a)
+	g.AddTask(b)
+	if first == 0 {
+		_, err := g.DepthFirstSort()
+		vAssert("sort-then-edges/first-sort-ok", err == nil)
+	} else {
+		err := g.Run(vNewContext(), nil, nil)
+		vAssert("sort-then-edges/first-run-ok", err == nil)
+	}
+	g.TaskDependsOn(a, b)
+	if cyc {
+		g.TaskDependsOn(b, a)
+	}
+	vPhase("run")
+	sorted, serr := g.DepthFirstSort()
+	before := entered
+	rerr := g.Run(vNewContext(), nil, nil)
+	vObserve("serr", serr != nil)
+	vObserve("rerr", rerr != nil)
+	if cyc {
+		vAssert("sort-then-edges/cycle-seen-by-sort", errors.Is(serr, ErrorGraphHasCycle))
+		vAssert("sort-then-edges/cycle-rejected-by-run", rerr != nil && entered == before)
+	} else {
+		vAssert("sort-then-edges/sort-ok", serr == nil && len(sorted) == 2)
+		if serr == nil && len(sorted) == 2 {
+			vAssert("sort-then-edges/dependency-first", sorted[0].ID == "b" && sorted[1].ID == "a")
+		}
+	}
+	vReach("ran")
+}
